@@ -341,6 +341,32 @@ def toH5 (c : Utf8) (dc : DateC δ) (t : Src α) (genBy : String) (date : Option
   let s ← axGrp c t.samp t.smd t.sgmd t.sgmdBare nnz csc
   pure { attrs := attrs, obs := some o, samp := some s }
 
+/-! ### the domain of the property's metadata (decidable; also evaluated by the driver) -/
+
+def MdVal.isAtom : MdVal α → Bool
+  | .text _ => true | .int _ => true | .float _ => true | .bool _ => true | _ => false
+
+def goodList : MdVal α → Bool
+  | .list l => !l.isEmpty && l.all (fun s => s != "")
+  | _ => false
+
+/-- the per-category-homogeneous domain of the property: lists of non-empty text under the
+reserved hierarchical names, otherwise all text / all integer / all float / all boolean -/
+def colDomain (k : String) (col : List (MdVal α)) : Bool :=
+  if isSpecial k then col.all goodList || (k == "taxonomy" && col.all MdVal.isText)   -- or flat 'a; b' texts
+  else col.all MdVal.isText || col.all MdVal.isInt || col.all MdVal.isFloat || col.all MdVal.isBool
+
+/-- metadata of one axis is in the domain: present on no ID or on every ID with the same categories
+(a dict: distinct keys; at least one), escaped names distinct, every category homogeneous -/
+def mdDomain : Option (List (MdE α)) → Bool
+  | none => true
+  | some [] => false
+  | some (e0 :: es) =>
+    !(keysOf e0).isEmpty && decide (keysOf e0).Nodup &&
+    es.all (fun e => decide (keysOf e).Nodup && sameKeys e e0 && (keysOf e).length == (keysOf e0).length) &&
+    decide ((keysOf e0).map sanitize).Nodup &&
+    (keysOf e0).all (fun k => colDomain k (colOf (e0 :: es) k))
+
 /-! ### a reader written from biom-2.1.rst only -/
 
 def okEq [BEq β] (e : Except Err β) (x : β) : Bool :=
@@ -722,6 +748,9 @@ def specToJson (st : SpecTable Rat) : Json :=
     → holds/clause on the raw tree, the model tree, agreement, Lean's spec decoding of the raw tree -/
 def handle (req : Json) : R Json := do
   let src ← asSrc (← fld req "src")
+  if (optFld req "op").isSome then
+    -- {"op": "domain", "src": …}: is the table inside the domain of the theorems?
+    return Json.mkObj [("in_domain", .bool (mdDomain src.omd && mdDomain src.smd))]
   let raw ← asH5 (← fld req "raw")
   let genBy ← strF req "generated_by"
   let date ← optF asStr req "date"
@@ -739,6 +768,7 @@ def handle (req : Json) : R Json := do
     | .ok st => specToJson st
     | .error e => errToJson e
   pure (Json.mkObj (verdictToJson v ++ [("agree", .bool (mj.compress == rj.compress)),
-    ("model_holds", .bool modelHolds), ("model", mj), ("raw_canon", rj), ("decode", dec)]))
+    ("model_holds", .bool modelHolds), ("model", mj), ("raw_canon", rj), ("decode", dec),
+    ("in_domain", .bool (mdDomain src.omd && mdDomain src.smd))]))
 
 end Biom.C04
